@@ -263,3 +263,15 @@ Example C01_spaced_query_example :
   map snd (nav_allf pf rm doc [FQS 1 d] ([], doc)) =
     [VObj [("a", VNum (num_of_Z 2)); ("b", VNull); ("c", VNull)]; VObj [("a", VNum (num_of_Z 1)); ("b", VNull)]]%string.
 Proof. cbv zeta. do 4 (split; [vm_compute; reflexivity|]). vm_compute. reflexivity. Qed.
+
+(* parenthesised sub-queries (QueryTree.v): `$[?((@.a||@.b)&&!@.c)]` *)
+From JP Require Import QueryTree.
+Example C01_subquery_example :
+  let pf := fun s : string => @None num in
+  let rm := fun _ _ : string => false in
+  let doc := VArr [VObj [("a", VNull)]; VObj [("b", VNull); ("c", VNull)]; VObj [("b", VNull)]; VObj [("c", VNull)]; VObj [("a", VNull); ("b", VNull)]]%string in
+  let t := TA (TP (TO (TB (BE [RPlain (SDot [97%N])])) (TB (BE [RPlain (SDot [98%N])])))) (TB (BN [RPlain (SDot [99%N])])) in
+  text_of (fchain_path [FT t]) = "$[?((@.a||@.b)&&!@.c)]"%string /\
+  forallb fstep_ok [FT t] = true /\ forallb (fstep_okp pf (fun _ => true)) [FT t] = true /\
+  map snd (nav_allf pf rm doc [FT t] ([], doc)) = [VObj [("a", VNull)]; VObj [("b", VNull)]; VObj [("a", VNull); ("b", VNull)]]%string.
+Proof. cbv zeta. do 3 (split; [vm_compute; reflexivity|]). vm_compute. reflexivity. Qed.
